@@ -471,7 +471,11 @@ func bHashDestinations(n, del int, add bool) {
 				}
 			}
 			if out[i] < 0 {
-				res.Violate("hash-not-exactly-one", fmt.Sprintf("consistentHashing route with %d destinations (%s): the line %q moved the hand-off counters of not exactly one destination", n, what, line(i)), map[string]interface{}{"destinations": n})
+				var ds []string
+				for j := range ks {
+					ds = append(ds, fmt.Sprintf("d%d(%s):%d", j, addrs[j], d.Get(ks[j])))
+				}
+				res.Violate("hash-not-exactly-one", fmt.Sprintf("consistentHashing route with %d destinations (%s): the line %q moved the hand-off counters of not exactly one destination: %v", n, what, line(i), ds), map[string]interface{}{"destinations": n, "handoffs": ds})
 				return nil, false
 			}
 		}
